@@ -71,6 +71,33 @@ def detectAddrs (r : Resp) : List Str :=
   compact (if r.role = .sender then r.assistedAddrs ++ r.candidateAddrs
            else if r.candidatePorts.isEmpty then r.candidateAddrs else [])
 
+/-- how MakeHole computes `detectAddrs` from the instruction, as a term: REGENERATED from nathole.go by
+    translate/gen_natclientfacts.go (Frp/Gen/NatClientFacts.lean, symbolic execution of the statements before the send
+    loop).  `take` = a slice expression `x[:n]`, `unknown` = a statement / expression the translator has no term for. -/
+inductive AddrExpr
+  | nil
+  | assisted                               -- m.AssistedAddrs
+  | candidate                              -- m.CandidateAddrs
+  | app (a b : AddrExpr)                   -- append(a, b...)
+  | compact (a : AddrExpr)                 -- slices.Compact(a)
+  | take (n : Nat) (a : AddrExpr)          -- a[:n]
+  | unknown (src : String)
+  deriving DecidableEq, Repr
+
+def AddrExpr.eval (r : Resp) : AddrExpr → List Str
+  | .nil => []
+  | .assisted => r.assistedAddrs
+  | .candidate => r.candidateAddrs
+  | .app a b => a.eval r ++ b.eval r
+  | .compact a => NatHole.compact (a.eval r)
+  | .take n a => (a.eval r).take n
+  | .unknown _ => []
+
+/-- the send loop of MakeHole: `for _, detectAddr := range detectAddrs { for _, conn := range listenConns {
+    sendSidMessage(ctx, conn, …, detectAddr, …) } }` — (address, index of the socket), in order; no early exit -/
+def sendPlan (addrs : List Str) (nConns : Nat) : List (Str × Nat) :=
+  addrs.flatMap (fun a => (List.range nConns).map (fun c => (a, c)))
+
 def portsOf (rg : Int × Int) : List Int :=
   (List.range (rg.2 - rg.1 + 1).toNat).map (fun (k : Nat) => rg.1 + Int.ofNat k)
 
